@@ -158,6 +158,25 @@ def check_case(ctx, case):
                             'place (and a forced re-computation) the results changed: %r' % (kind, what), field='values')
         except (ValueError, RuntimeError, TypeError) as e:
             ctx.reject('container:%s:%s' % (kind, type(e).__name__))
+    # a MetricSpace built from the caller's coordinate array and changed by the caller *before* its distances were ever
+    # computed: the space holds the coordinates it was given
+    if case['kw'].get('maxlag') is None or not isinstance(case['kw'].get('maxlag'), float) or case['kw']['maxlag'] < 1:
+        reg('metricspace-before-first-use')
+        try:
+            cc = c0.copy()
+            with quiet():
+                msl = MetricSpace(cc, 'euclidean')
+                cc *= 3.0
+                cc += 17.0
+                Vm = Variogram(msl, v0.copy(), **case['kw'])
+                Vr = Variogram(MetricSpace(c0.copy(), 'euclidean'), v0.copy(), **case['kw'])
+            om, orr = obs(Vm), obs(Vr)
+            if not same(om, orr, tol=1e-9 if case['kw']['bin_func'] in ('kmeans', 'ward') else 1e-12):
+                what = [k for k in orr if orr[k] != om[k]]
+                return fail('affected-by-caller-mutation', 'a MetricSpace whose coordinate array the caller changed before the '
+                            'distances were first computed gives other results: %r' % what, field='coordinates')
+        except (ValueError, RuntimeError) as e:
+            ctx.reject('lazy-metricspace:' + type(e).__name__)
     # returned lag edges are a copy
     reg('mutate-returned-bins')
     with quiet():
@@ -176,6 +195,13 @@ def check_case(ctx, case):
             return fail(name + '-fails', '%s: %s' % (type(e).__name__, e))
         if not same(ow, base, tol=1e-9 if case['kw']['bin_func'] in ('kmeans', 'ward') else 1e-12):
             return fail(name + '-differs', '%s yields different observable results' % name)
+        with quiet():
+            kw_before = repr(sorted((k, repr(v)) for k, v in V.describe().get('kwargs', {}).items()))
+            W.update_kwargs(binning_random_state=12345, entropy_bins=17)
+            kw_after = repr(sorted((k, repr(v)) for k, v in V.describe().get('kwargs', {}).items()))
+        if kw_before != kw_after:
+            return fail(name + '-not-isolated', 'update_kwargs on the %s changed the keyword settings of the original: %s -> %s'
+                        % (name, kw_before, kw_after))
         with quiet():
             W.n_lags = W.n_lags + 2 if W._bin_func_name not in ('sturges',) else W.n_lags
             W.estimator = 'dowd' if case['kw']['estimator'] != 'dowd' else 'matheron'
